@@ -223,6 +223,11 @@ func fromHTML(content []byte) string {
 					}
 
 				case "content":
+					if needPragma == doNotNeedPragma {
+						// A charset attribute was already seen on this element;
+						// content only counts while the charset is still unset.
+						break
+					}
 					name = fromMetaElement(string(val))
 					if name != "" {
 						needPragma = doNeedPragma
